@@ -443,11 +443,30 @@ class ParquetFileLoader(
         data : instance of DataFieldRecordArray
             The DataFieldRecordArray holding the loaded data.
         """
+        if isinstance(keep_fields, str):
+            keep_fields = [keep_fields]
+
+        def _get_columns(pathfilename):
+            # As for the other file loaders, fields that are not present in the
+            # file are ignored, and the fields are loaded in the order of the
+            # file.
+            if keep_fields is None:
+                return None
+            return [
+                name
+                for name in self.pq.read_schema(pathfilename).names
+                if name in keep_fields
+            ]
+
         assert_file_exists(self.pathfilename_list[0])
-        table = self.pq.read_table(self.pathfilename_list[0], columns=keep_fields)
+        table = self.pq.read_table(
+            self.pathfilename_list[0],
+            columns=_get_columns(self.pathfilename_list[0]))
         for pathfilename in self.pathfilename_list[1:]:
             assert_file_exists(pathfilename)
-            next_table = self.pq.read_table(pathfilename, columns=keep_fields)
+            next_table = self.pq.read_table(
+                pathfilename,
+                columns=_get_columns(pathfilename))
             table = self.pa.concat_tables([table, next_table])
 
         data = DataFieldRecordArray(
